@@ -92,16 +92,23 @@ def extract(repo):
         return expand_locals(fi.node, e, depth=3, defs=fdefs)
     masks = {}
     counts = {}
+    WHERE = ('np.where', 'numpy.where', 'np.nonzero', 'numpy.nonzero')
     for n in ast.walk(mod):
+        # idx, = np.where(mask)   (one-element tuple target)
+        if isinstance(n, ast.Assign) and len(n.targets) == 1 and isinstance(n.targets[0], (ast.Tuple, ast.List)) and \
+                len(n.targets[0].elts) == 1 and isinstance(n.targets[0].elts[0], ast.Name) and \
+                isinstance(n.value, ast.Call) and call_name(n.value) in WHERE and len(n.value.args) == 1:
+            masks[n.targets[0].elts[0].id] = ex(n.value.args[0])
         if isinstance(n, ast.Assign) and len(n.targets) == 1 and isinstance(n.targets[0], ast.Name):
             v = n.value
             if isinstance(v, ast.Subscript) and isinstance(v.value, ast.Call) and \
-                    call_name(v.value) in ('np.where', 'numpy.where') and v.value.args:
+                    call_name(v.value) in WHERE and len(v.value.args) == 1:
                 masks[n.targets[0].id] = ex(v.value.args[0])
             elif isinstance(v, ast.Call) and call_name(v) in ('np.flatnonzero', 'numpy.flatnonzero') and v.args:
                 masks[n.targets[0].id] = ex(v.args[0])
-            # the number of selected columns: len(idx) / idx.size / idx.shape[0]
-            if isinstance(v, ast.Call) and call_name(v) == 'len' and v.args and isinstance(v.args[0], ast.Name):
+            # the number of selected columns: len(idx) / idx.size / idx.shape[0] / np.size(idx)
+            if isinstance(v, ast.Call) and call_name(v) in ('len', 'np.size', 'numpy.size') and len(v.args) == 1 and \
+                    isinstance(v.args[0], ast.Name):
                 counts[n.targets[0].id] = v.args[0].id
             elif isinstance(v, ast.Attribute) and v.attr == 'size' and isinstance(v.value, ast.Name):
                 counts[n.targets[0].id] = v.value.id
@@ -121,10 +128,14 @@ def extract(repo):
                 return counts[t.id]
             if t.id in masks:
                 return t.id
-        if isinstance(t, ast.Call) and call_name(t) == 'len' and t.args and isinstance(t.args[0], ast.Name):
+        if isinstance(t, ast.Call) and call_name(t) in ('len', 'np.size', 'numpy.size') and t.args and \
+                isinstance(t.args[0], ast.Name):
             return t.args[0].id
         if isinstance(t, ast.Attribute) and t.attr == 'size' and isinstance(t.value, ast.Name):
             return t.value.id
+        if isinstance(t, ast.Subscript) and isinstance(t.value, ast.Attribute) and t.value.attr == 'shape' and \
+                isinstance(t.value.value, ast.Name):
+            return t.value.value.id
         return None
     blocks = []
     for n in ast.walk(mod):
@@ -202,6 +213,12 @@ def extract(repo):
             raise AnalysisError('R14: block for %s not fully interpreted (coef=%s rhs=%s sense=%s)'
                                 % (mask, coef, rhs, sense))
         blocks.append({'mask': mask, 'coef': coef, 'rhs': rhs, 'sense': sense, 'node': n})
+    appending = [n for n in ast.walk(mod) if isinstance(n, ast.If) and any(
+        isinstance(x, ast.Call) and call_name(x).endswith('csr_matrix') for s_ in n.body for x in ast.walk(s_)) and
+        any(isinstance(x, ast.Call) and 'vstack' in call_name(x) for s_ in n.body for x in ast.walk(s_))]
+    if len(appending) != len(blocks):
+        raise AnalysisError('lp.Model.do_math: %d blocks append rows to the primal matrix but only %d are conditional on '
+                            'an index set the rule recognises' % (len(appending), len(blocks)))
     if len(blocks) < 2:
         raise AnalysisError('lp.Model.do_math: only %d appended bound-row blocks found' % len(blocks))
     # (with the upper- and lower-bound blocks recognised, a missing block -- e.g. the equality rows of variables fixed
@@ -260,6 +277,12 @@ def extract(repo):
                 ntext(n.targets[0].value) == cname and ntext(n.targets[0].slice) == neg_mask and \
                 isinstance(n.value, ast.UnaryOp) and isinstance(n.value.op, ast.USub):
             neg_const = True
+        if isinstance(n, ast.Assign) and isinstance(n.targets[0], ast.Subscript) and \
+                ntext(n.targets[0].value) == cname and ntext(n.targets[0].slice) == neg_mask and \
+                isinstance(n.value, ast.BinOp) and isinstance(n.value.op, ast.Mult) and \
+                any(ntext(x_) in ('-1', '-1.0') for x_ in (n.value.left, n.value.right)) and \
+                any(ntext(x_) == ntext(n.targets[0]) for x_ in (n.value.left, n.value.right)):
+            neg_const = True              # c[mask] = -1 * c[mask]
         if isinstance(n, ast.AugAssign) and isinstance(n.op, ast.Mult) and isinstance(n.target, ast.Subscript) and \
                 ntext(n.target.value) == cname and ntext(n.target.slice) == neg_mask and \
                 isinstance(n.value, ast.UnaryOp) and isinstance(n.value.op, ast.USub) and \
